@@ -261,52 +261,55 @@ def run(F, R, tier):
     # ------------------------------------------------------------------ R3 charset
     r3 = R.rule("C08-R3", "T7", "CharSet::Default = %x20-2D / %x2F-7E, UrlSafe = unreserved characters; '.' is rejected for every unencoded attached compact payload")
     vfn = CS + "::validate"
-    vh = F.hir(vfn)
-    if r3.anchor(vh, vfn):
-        env = H.Env(vh)
-        gs = L.block_guards(H.root(vh))
-        dot = False
-        inner_called = False
-        for cond, oc, node in gs:
-            inner, neg = H.negated(cond)
-            inner = H.strip(inner)
-            if inner.get("k") == "mcall" and inner["name"] == "contains" and not neg and oc.startswith("Err("):
-                lits = H.literals(inner)
-                if lits == ["."] or lits == [46]:
-                    dot = True
-            if neg and inner.get("k") == "mcall" and (H.fn_name(inner) or "").endswith("CharSet::__validate") and oc.startswith("Err("):
-                inner_called = True
-        r3.site("validate: explicit '.' rejection: %s; set membership enforced: %s" % (dot, inner_called), vh["value"]["sp"])
-        r3.require(inner_called, (vfn, "set-check"), "validate() does not reject payloads failing the character-set predicate")
-        ih = F.hir(CS + "::__validate")
-        sets = {}
-        whys = {}
-        if r3.anchor(ih, "CharSet::__validate"):
-            m = H.find_first(ih, lambda n: n.get("k") == "match" and n.get("src") == "normal")
-            if r3.require(m is not None, (CS + "::__validate", "table"), "character-set table not found"):
-                for arm in m["arms"]:
-                    name = H.pat_str(arm["pat"])
-                    # `data.chars().all(|ch| <predicate>)`: fold the predicate over the finite code-point domain
-                    body = H.strip(arm["body"])
-                    cps, why = None, "the arm is not `data.chars().all(|ch| ..)`"
-                    if body.get("k") == "mcall" and body["name"] == "all" and H.strip(body["recv"]).get("name") == "chars":
-                        cl = H.strip(body["args"][0])
-                        if cl.get("k") == "closure":
-                            cps, why = CP.closure_accepted_set(F, cl)
-                    sets[name] = cps
-                    whys[name] = why
-                    r3.site("CharSet::%s accepts %s code points" % (name, len(cps) if cps is not None else "?"), arm["body"].get("sp"))
+    if r3.anchor(F.hir(vfn), vfn):
+        # validate(self = each variant, data), evaluated abstractly: on every accepting path the payload was found not to contain '.'
+        # (or the character predicate excludes it) and every character satisfied the predicate handed to chars().all(..) — that
+        # predicate (closure or function, wherever it lives) is folded over the code-point domain and compared with the specification
         want = {"Default": S.CHARSET_DEFAULT, "UrlSafe": S.CHARSET_URLSAFE}
+        a_ = F.adt(CS)
+        vs_ = sorted(v["name"] for v in (a_ or {}).get("variants", []))
+        r3.require(vs_ == sorted(want), (CS, "variants"), "CharSet has variants %s; the specification table knows %s" % (vs_, sorted(want)))
         for name, w in want.items():
-            got = sets.get(name)
-            if not r3.require(got is not None, (CS, name, "not-extractable"), "the %s character-set predicate cannot be folded (%s); cannot compare it with the specification" % (name, whys.get(name))):
+            ev = sym.Evaluator(F, opaque=r"from_utf8$", inline_depth=4)
+            try:
+                paths = [q for q in ev.explore(vfn, args=[sym.V(name), sym.Sym(("param", "data"))])]
+            except (sym.Abort, sym.TooManyPaths) as e:
+                r3.fail((CS, name, "not-extractable"), "CharSet::validate could not be evaluated for %s: %s" % (name, e))
                 continue
-            extra = sorted(got - w)
-            missing = sorted(w - got)
+            oks = [q for q in paths if q.complete and SR.is_success(q.ret) and not SR.is_failure(q.ret)]
+            r3.require(bool(oks) and all(q.complete for q in paths), (CS, name, "not-extractable"), "CharSet::validate(%s) has no evaluable accepting path" % name)
+            got_all = None
+            for q in oks:
+                fu = [e for e in q.calls(r"from_utf8$") if q.succeeded(e) is True and SR.pure(e.args[0], ("param", "data"))]
+                if not r3.require(len(fu) == 1 and SR.pure(q.ret, ("payload", fu[0].result.t, "Ok", 0)), (vfn, "returns"), "validate does not return the UTF-8 view of the data it was given"):
+                    continue
+                PAY = ("payload", fu[0].result.t, "Ok", 0)
+                dot = any(a[0] == "truth" and c is False and isinstance(a[1], tuple) and a[1][:1] == ("call",) and a[1][1].endswith("contains") and SR.pure(a[1][2][0], PAY) and a[1][2][1] in (("lit", "."), ("lit", 46))
+                          for (a, c, _, _) in q.decisions)
+                preds = [e for e in q.events if e.kind == "pred" and e.name == "all" and SR.derives(e.args[0], PAY)]
+                if not r3.require(len(preds) >= 1, (vfn, "set-check"), "validate() accepts a payload without testing all of its characters against the character-set predicate (%s)" % name):
+                    continue
+                got = None
+                for e in preds:
+                    c_ = e.args[1]
+                    g, why = (CP.closure_accepted_set(F, c_.node) if isinstance(c_, sym.Clo) else CP.fn_accepted_set(F, c_.path))
+                    if g is None:
+                        r3.fail((CS, name, "not-extractable"), "the %s character-set predicate cannot be folded (%s); cannot compare it with the specification" % (name, why))
+                        got = None
+                        break
+                    got = g if got is None else (got & g)
+                if got is None:
+                    continue
+                if dot:
+                    got = got - {0x2E}
+                got_all = got if got_all is None else (got_all | got)
+            if got_all is None:
+                continue
+            r3.site("CharSet::%s accepts %d code points" % (name, len(got_all)))
+            extra, missing = sorted(got_all - w), sorted(w - got_all)
             r3.require(not extra, (CS, name, "extra"), "CharSet::%s accepts characters outside the specified set: %s" % (name, [chr(c) for c in extra][:10]))
             r3.require(not missing, (CS, name, "missing"), "CharSet::%s rejects specified characters: %s" % (name, [chr(c) for c in missing][:10]))
-            r3.require(dot or 0x2E not in got, (CS, name, "dot"), "'.' is accepted in an unencoded compact payload under CharSet::%s: the token cannot be split back into three segments" % name)
-        r3.require(dot or all(s is not None and 0x2E not in s for s in sets.values()), (vfn, "dot"), "'.' is not rejected for unencoded attached compact payloads")
+            r3.require(0x2E not in got_all, (CS, name, "dot"), "'.' is accepted in an unencoded compact payload under CharSet::%s: the token cannot be split back into three segments" % name)
     # the validator is what into_non_detached applies for NonDetached compact tokens
     fn = ENC + "::CompactJwsEncoder::new_with_options"
     h = F.hir(fn)
@@ -324,7 +327,7 @@ def run(F, R, tier):
                     tried = H.tried_calls([arm["body"]])
                     ok = any(c.get("k") == "call" and H.local_name(c.get("callee")) == "not_encoded_validator" for c in tried) or any("not_encoded_validator" in str(c.get("callee", {}).get("res", {})) for c in H.walk(arm["body"]) if c.get("k") == "call")
         r3.require(ok, (UTL + "::MaybeEncodedPayload::into_non_detached", "validator"), "a NotEncoded payload is not passed through the format validator before being emitted")
-    r3.floor(4)
+    r3.floor(3)
 
     # ------------------------------------------------------------------ R4 header assembly in create_jws
     r4 = R.rule("C08-R4", "T8", "create_jws, evaluated abstractly under three concrete option sets (nothing set / everything set with b64 = false, detached, attach_jwk / b64 = true): alg from the resolved method's JWK; kid = options.kid else the method id; typ = options.typ else \"JWT\"; b64 = false ⇔ set_b64(false) ∧ crit = [\"b64\"]; nonce/url/cty/custom copied when set; jwk attached iff attach_jwk; key id = get_key_id(digest of the same method) ✓; signs the encoder's signing input with that key id; returns into_jws(signature)")
